@@ -168,6 +168,27 @@ CHECKS.update({
         design_ref='DESIGN.md §4 C08', note=OAL_NOTE),
 })
 
+
+BP_NOTE = ('trusted: TLC; the synthesiser vt/adapters/_bp.py that writes BridgePoint model rows for a diagram; the projection of the '
+           'built component / parsed XSD in vt/adapters/bp.py')
+CHECKS.update({
+    'C14': dict(
+        technique='BpModel.tla Component (a relational definition of the classes, identifiers and associations a class diagram must '
+                  'yield) evaluated by TLC on every diagram of seeded edit scripts and compared (BpTrace.tla) with what '
+                  'build_component / mk_component extract from synthesised BridgePoint model text, for every component, row order and '
+                  'loading route; SQL schema round trip included',
+        text='The specification goes from the abstract diagram to the expected definitions, the synthesiser from the diagram to '
+             'BridgePoint rows, pyxtuml from the rows to definitions: two independent directions meet in TLC. Edits at every site '
+             '(attributes, types, order, multiplicity, conditionality, phrases, identifiers, components) produce the diagrams.',
+        design_ref='DESIGN.md §3.5, §4 C14', note=BP_NOTE),
+    'C20': dict(
+        technique='BpModel.tla Xsd evaluated by TLC on the diagrams of the C14 edit scripts and compared with the declarations of the '
+                  'schema built by gen_xsd_schema.build_schema / written by gen_xsd_schema.main',
+        text='Elements, attribute types through referential and user-type chains, core, enumeration (modeled order) and user simple '
+             'types per component; well-formedness by parsing the written file.',
+        design_ref='DESIGN.md §3.5, §4 C20', note=BP_NOTE),
+})
+
 NOT_YET = {}
 
 
